@@ -80,7 +80,7 @@ PROPS = {
         ],
         'not_covered': [
             'the recursion-to-error marker and termination (Transformer::resolve: RefCell<HashMap> + function pointers; outside both verifiers)',
-            'in ty_example: the draw of a variant, the Array arm\'s map/collect and the BitSequence arm are opaque calls (R8\'\' / R8\'\'\'); what is proved there is that their results are wrapped correctly',
+            'in ty_example: the BitSequence arm is an opaque call (R8\'\'\'); which variant is drawn is the rng\'s business (assumed: one of the list, None iff empty)',
             'seed determinism, the decode half of the round trip, "a value is returned whenever no cycle and no empty enum" (the concrete oracle c12-structure tests them on a catalogue registry; a test, not a proof)',
         ],
     },
